@@ -67,6 +67,15 @@ Proof.
   exact (image_fields_acc m acc0 _ Hf eq_refl).
 Qed.
 
+(* in particular a document with the three fields in any of the six key orders *)
+Theorem C19_image_any_key_order : forall (c h w : N) (data : list N) (m : list (str * json)),
+  channels_ok c = true -> bytes_ok data = true ->
+  h <= u64_max -> w <= u64_max ->
+  N.of_nat (List.length data) = h * w * c -> h * w * c < usize_lim ->
+  Permutation.Permutation m [(s2l "size", ser_size (h, w)); (s2l "channels", JNum (NU c)); (s2l "data", JStr (rfc4648 data))] ->
+  image_de (JObj m) = Ok {| i_h := h; i_w := w; i_pix := pixels_of c data |}.
+Proof. exact image_any_order. Qed.
+
 (* any JSON value as an image: a value or an error, never a panic or an overflow *)
 Theorem C19_image_total : forall j : json, no_panic (image_de j).
 Proof. exact image_de_total. Qed.
